@@ -25,6 +25,7 @@ for f in sys.argv[1:]:
             except Exception as e:
                 kinds = "?"
         how = "missed" if ex == "0" else ("failing input" if "no-failing-input-found" not in vio else "tie broken, no failing input")
+        rows = [x for x in rows if not (x[0] == seed and x[1] == chk)]   # a later run of the same pair replaces the earlier one
         rows.append((seed, chk, how, direct, mism, proof, kinds))
 meta = {}
 for d in sorted(os.listdir("/verif/seeded")):
@@ -37,6 +38,7 @@ out = ["# Seeded changes: which checks catch which", "",
        "`failing input` = exit 1 with a replay naming a concrete input on which the property's own predicate fails; `tie broken` = exit 1, `no-failing-input-found`",
        "(correspondence / table lemma broke, the replay lists the differing cases); `missed` = exit 0.", "",
        "| seed | targets | change | check | result | direct violations | model/impl mismatches | violation kinds |", "|---|---|---|---|---|---|---|---|"]
+rows.sort(key=lambda x: (x[0], x[1] != meta.get(x[0], {}).get("property"), x[1]))
 for seed, chk, how, direct, mism, proof, kinds in rows:
     m = meta.get(seed, {})
     out.append("| %s | %s | %s | %s | **%s** | %s | %s | %s |" % (seed, m.get("property", "?"), m.get("change", "?").replace("|", "\\|")[:160], chk, how, direct, mism, kinds.replace("|", "\\|")))
